@@ -19,6 +19,35 @@ def dir_derivative(g, P, A, W, eps_step=(2e-4, 1e-4)):
     return rich, left, right, abs(d1 - d2)
 
 
+SCALES = ((2e-4, 1e-4), (2e-5, 1e-5), (2e-6, 1e-6))
+
+
+def judge_direction(g, P, A, W, an, s):
+    """-> ('ok' | 'kink' | 'mismatch' | 'error', best estimate).  The analytic value `an` is accepted as soon as ONE step size
+    gives agreeing one-sided slopes and a central difference equal to it: piecewise-smooth scores (TV, Wasserstein, MMD at zero
+    distances) may have kinks INSIDE a coarse difference stencil although the score is differentiable at the point itself
+    (seen on tv_ovo, regime onehot1e-3: kinks at |t| ~ 3e-5).  A wrong gradient disagrees at every step size."""
+    verdict, est = "kink", None
+    if type(g).__name__ == "MMDGEMINI" and gl.mmd_conditioning(P, A, bool(g.ovo)) < 1e-6:
+        # the double-precision SCORE is noise at this point (a distance^2 of 1e-16*scale under the square root): its
+        # difference quotients are not the derivative (checked in 60-digit arithmetic on mmd_ova, n=3, regime onehot1e-6,
+        # random symmetric kernel: analytic -7.68e-7, exact -7.74e-7, double-precision quotient -3.87e-7)
+        return "illconditioned", None
+    for steps in SCALES:
+        try:
+            rich, left, right, spread = dir_derivative(g, P, A, W, steps)
+        except Exception:
+            return "error", None
+        if abs(left - right) > 1e-3 * max(abs(left), abs(right), 1e-9) + 1e-7 * (1e-4 / steps[1]):
+            continue
+        scale = max(abs(an), abs(rich), 1e-6 * max(1.0, abs(s)))
+        # rounding of the score enters a difference quotient as ~1e-16*|s|/h
+        if abs(an - rich) <= 2e-5 * scale + 10 * spread + 1e-9 + 4e-16 * max(1.0, abs(s)) / steps[1]:
+            return "ok", rich
+        verdict, est = "mismatch", (rich if est is None else est)
+    return verdict, est
+
+
 def run(ctx):
     ctx.rule = ("12 configurations x shapes n in 1..8, K in 2..6 x simplex regimes (soft ... near one-hot 1e-6; 1e-9 for the "
                 "model correspondence only) x kernels/metrics; directions: random logit directions W (so P stays on the simplex); "
@@ -26,7 +55,7 @@ def run(ctx):
                 "non-trivial = gradient not identically zero")
     ctx.do_prove()
     eps = 1e-12
-    depth = 7 if ctx.tier == "quick" else 50
+    depth = 10 if ctx.tier == "quick" else 300
     rs = np.random.RandomState(ctx.seed * 7919 + 2)
     cs = c01.cases(ctx, depth)
     lines, impl, recs = [], [], []
@@ -64,7 +93,9 @@ def run(ctx):
             continue
         if s != s0 and not (s != s and s0 != s0):
             ctx.violation(f"score with return_grad ({s}) differs from score without ({s0})", "grad", inp, key=f"score-path:{cfg}", how=how)
-        if o is not None:
+        if o is not None and cls == "mmd" and gl.mmd_conditioning(P, A, ovo, eps) < 1e-6:
+            ctx.count("illconditioned_not_compared:mmd-near-zero-distance")
+        elif o is not None:
             m = [core.unhex(x) for x in o.split()]
             ctx.compared("grad:" + cfg)
             if not core.close_vec(G.ravel().tolist(), m, rtol=1e-7):
@@ -77,18 +108,20 @@ def run(ctx):
             W = rs.randn(n, K)
             dP = P * (W - (P * W).sum(1, keepdims=True))
             an = float((G * dP).sum())
-            try:
-                rich, left, right, spread = dir_derivative(g, P, A, W)
-            except Exception as e:
+            verdict, rich = judge_direction(g, P, A, W, an, s)
+            if verdict == "error":
                 ctx.count("oracle_error")
                 continue
-            scale = max(abs(an), abs(rich), 1e-6 * max(1.0, abs(s)))
-            if abs(left - right) > 1e-3 * max(abs(left), abs(right), 1e-9) + 1e-7:
+            if verdict == "illconditioned":
+                ctx.count("illconditioned_skipped:mmd-near-zero-distance")
+                continue
+            if verdict == "kink":
                 ctx.count("nondifferentiable_skipped:" + cls)
                 continue
             ctx.count("derivative_checked")
-            if abs(an - rich) > 2e-5 * scale + 10 * spread + 1e-9:
-                ctx.violation(f"<grad, dP> = {an!r} but the score's directional derivative is {rich!r}", "grad",
+            if verdict == "mismatch":
+                ctx.violation(f"<grad, dP> = {an!r} but the score's directional derivative is {rich!r} (at every step size "
+                              f"with agreeing one-sided slopes)", "grad",
                               {**inp, "W": W.tolist()}, expected=rich, actual=an, key=f"derivative:{cfg}", how=how)
                 break
     # one object, several inputs: the gradient returned at each step is the derivative of the score AT THAT INPUT
@@ -103,17 +136,18 @@ def run(ctx):
             W = rs.randn(n, K)
             dP = P * (W - (P * W).sum(1, keepdims=True))
             an = float((G * dP).sum())
-            try:
-                rich, left, right, spread = dir_derivative(g, P, A, W)
-            except Exception:
+            verdict, rich = judge_direction(g, P, A, W, an, float(r[0]))
+            if verdict == "error":
                 ctx.count("oracle_error")
                 continue
-            if abs(left - right) > 1e-3 * max(abs(left), abs(right), 1e-9) + 1e-7:
+            if verdict == "illconditioned":
+                ctx.count("illconditioned_skipped:mmd-near-zero-distance")
+                continue
+            if verdict == "kink":
                 ctx.count("nondifferentiable_skipped:" + cls)
                 continue
             ctx.count("derivative_checked:reuse")
-            scale = max(abs(an), abs(rich), 1e-6 * max(1.0, abs(float(r[0]))))
-            if abs(an - rich) > 2e-5 * scale + 10 * spread + 1e-9:
+            if verdict == "mismatch":
                 ctx.violation(f"evaluation number {len(hist)} on one object: <grad, dP> = {an!r} but the score's directional "
                               f"derivative at that input is {rich!r}", "grad:reuse", {"config": cfg, "sequence": hist, "W": W.tolist()},
                               expected=rich, actual=an, key=f"derivative-reuse:{cfg}",
